@@ -93,3 +93,126 @@ Proof.
   destruct (ord _ _ _) as [order| | |]; cbn [bind] in H; try discriminate.
   eapply J_rebase_fold; eassumption.
 Qed.
+
+(** * The reference updates keep the invariant *)
+Lemma J_merge_bookmark st name old other : J st ->
+  Nat.odd (length (bm_get (s_v st) name)) = true -> Nat.odd (length other) = true ->
+  (forall c, In c (added_ids other) -> c < length (s_g st)) ->
+  J (merge_local_bookmark st name [Some old] other).
+Proof.
+  intros Js OS O R. unfold merge_local_bookmark.
+  destruct (merge_ref_targets_facts (pg (s_g st)) (bm_get (s_v st) name) other old OS O) as [_ AT].
+  apply J_set_local_bookmark_target; [assumption|].
+  intros c Hc. apply added_ids_In in Hc. destruct (AT _ Hc) as [H|H]; apply added_ids_In in H; [|auto].
+  unfold bm_get in H. destruct (aget N.eqb name (v_bms (s_v st))) as [t|] eqn:E; [|destruct H].
+  apply (aget_In N.eqb Neqb_spec) in E. now apply (j_bms _ Js name t c E).
+Qed.
+
+(** Odd arity of every stored target is preserved by the bookmark updates. *)
+Definition bms_odd (st : state) : Prop :=
+  forall name t, In (name, t) (v_bms (s_v st)) -> Nat.odd (length t) = true.
+
+Lemma bm_get_odd st name : bms_odd st -> Nat.odd (length (bm_get (s_v st) name)) = true.
+Proof.
+  intros O. unfold bm_get. destruct (aget N.eqb name (v_bms (s_v st))) as [t|] eqn:E; [|reflexivity].
+  apply (aget_In N.eqb Neqb_spec) in E. eapply O; eassumption.
+Qed.
+
+Lemma bms_odd_set st name t : bms_odd st -> Nat.odd (length t) = true ->
+  bms_odd (set_local_bookmark_target st name t).
+Proof.
+  intros O Ot name' t' Hin. unfold set_local_bookmark_target in Hin. cbn [set_view s_v v_bms] in Hin.
+  rewrite fold_add_head_bms in Hin. destruct (is_absent t).
+  - apply (adel_In N.eqb) in Hin. eapply O; eassumption.
+  - apply (aset_In N.eqb N.ltb) in Hin. destruct Hin as [E|Hin]; [injection E as -> ->; assumption|eapply O; eassumption].
+Qed.
+
+Lemma J_update_local_bookmarks st mapping del st' :
+  J st -> bms_odd st ->
+  (forall k nids, aget Nat.eqb k mapping = Some nids -> forall z, In z nids -> z < length (s_g st)) ->
+  update_local_bookmarks st mapping del = Ok st' ->
+  J st' /\ bms_odd st' /\ s_g st' = s_g st /\ s_pm st' = s_pm st /\ v_wcs (s_v st') = v_wcs (s_v st).
+Proof.
+  intros Js Os R H.
+  destruct (update_local_bookmarks_fields _ _ _ _ H) as [W [P G]].
+  unfold update_local_bookmarks in H.
+  match type of H with fold_left _ ?l _ = _ => set (changed := l) in * end.
+  assert (Hch : forall name oldc nids, In (name, oldc, nids) changed -> aget Nat.eqb oldc mapping = Some nids).
+  { intros name oldc nids Hin. unfold changed in Hin. apply in_flat_map in Hin.
+    destruct Hin as [[nm t] [_ Hin]]. apply in_flat_map in Hin. destruct Hin as [id [_ Hin]].
+    destruct (aget Nat.eqb id mapping) as [ns|] eqn:E; [|contradiction].
+    destruct Hin as [Hin|[]]. injection Hin as <- <- <-. assumption. }
+  assert (Q : J st' /\ bms_odd st' /\ s_g st' = s_g st).
+  { refine (fold_res_inv (fun (s1' : state) (ch : N * nat * list nat) => _)
+              (fun s => J s /\ bms_odd s /\ s_g s = s_g st) changed _ st st' (conj Js (conj Os eq_refl)) H).
+    intros a [[name oldc] nids] a' [Ja [Oa Ga]] Hin Hf. cbv beta iota in Hf.
+    assert (M : forall other, Nat.odd (length other) = true ->
+                 (forall c, In c (added_ids other) -> c < length (s_g a)) ->
+                 let a2 := merge_local_bookmark a name [Some oldc] other in
+                 J a2 /\ bms_odd a2 /\ s_g a2 = s_g st).
+    { intros other Oo Ro. cbv zeta. split; [|split].
+      - apply J_merge_bookmark; auto. now apply bm_get_odd.
+      - unfold merge_local_bookmark. apply bms_odd_set; [assumption|].
+        apply (merge_ref_targets_facts (pg (s_g a)) (bm_get (s_v a) name) other oldc); [now apply bm_get_odd|assumption].
+      - unfold merge_local_bookmark. destruct (set_local_bookmark_fields a name
+          (merge_ref_targets (pg (s_g a)) (bm_get (s_v a) name) [Some oldc] other)) as [_ [_ X]]. now rewrite X. }
+    destruct (del && is_abandoned (pm_get (s_pm a) oldc)).
+    - apply Ok_inj in Hf. subst a'. apply M; [reflexivity|intros c []].
+    - destruct nids as [|n ns]; [discriminate|]. apply Ok_inj in Hf. subst a'.
+      destruct (intersperse_facts (map Some (n :: ns)) (Some oldc)) as [IE IO]; [discriminate|].
+      apply M; [assumption|]. intros c Hc. apply added_ids_In in Hc. rewrite IE in Hc. apply in_map_iff in Hc.
+      destruct Hc as [z [E Hz]]. injection E as ->. rewrite Ga. eapply R; [apply (Hch _ _ _ Hin)|exact Hz]. }
+  destruct Q as [A [B C]]. auto.
+Qed.
+
+Lemma J_update_wc_commits st mapping st' :
+  J st ->
+  (forall k nids, aget Nat.eqb k mapping = Some nids -> nids <> [] /\ forall z, In z nids -> z < length (s_g st)) ->
+  update_wc_commits st mapping = Ok st' ->
+  J st' /\ v_bms (s_v st') = v_bms (s_v st).
+Proof.
+  intros Js R H. pose proof (update_wc_commits_bms _ _ _ H) as B. split; [|assumption].
+  rewrite update_wc_commits_eq in H.
+  match type of H with (do r <- fold_left _ ?l _; _) = _ => set (changed := l) in * end.
+  assert (Hch : forall ws oldc nids, In (ws, oldc, nids) changed -> aget Nat.eqb oldc mapping = Some nids).
+  { intros ws oldc nids Hin. unfold changed in Hin. apply in_flat_map in Hin.
+    destruct Hin as [[w c] [_ Hin]]. cbn [fst snd] in Hin.
+    destruct (aget Nat.eqb c mapping) as [ns|] eqn:E; [|contradiction].
+    destruct Hin as [Hin|[]]. injection Hin as <- <- <-. assumption. }
+  destruct (fold_left uwc_step changed (Ok (st, []))) as [[sf rec]| | |] eqn:F; cbn [bind] in H; try discriminate.
+  apply Ok_inj in H. cbn [fst] in H. subst st'.
+  set (Q := fun sr : state * list (nat * nat) =>
+              J (fst sr) /\ length (s_g st) <= length (s_g (fst sr)) /\
+              forall k c, aget Nat.eqb k (snd sr) = Some c -> c < length (s_g (fst sr)) /\ c <> 0).
+  assert (HQ : Q (sf, rec)).
+  { unfold uwc_step in F.
+    refine (fold_res_inv (fun (sr : state * list (nat * nat)) (ch : N * nat * list nat) => _) Q changed _ (st, []) (sf, rec) _ F).
+    - intros [a recr] [[ws oldc] nids] a' [Ja [La Ra]] Hin Hf. cbn [fst snd] in *. cbv beta iota in Hf.
+      destruct (R _ _ (Hch _ _ _ Hin)) as [NE Rn].
+      match type of Hf with (do sw <- ?X; _) = _ => destruct X as [[[s2 rec2] new_wc]| | |] eqn:EX end;
+        cbn [bind] in Hf; try discriminate.
+      assert (Hs2 : Q (s2, rec2) /\ new_wc < length (s_g s2)).
+      { destruct (negb (is_abandoned (pm_get (s_pm a) oldc))).
+        - destruct nids as [|n ns]; [discriminate|]. apply Ok_inj in EX. injection EX as <- <- <-.
+          split; [split; [assumption|split; assumption]|]. specialize (Rn n (or_introl eq_refl)). cbn [fst]. lia.
+        - destruct (aget Nat.eqb oldc recr) as [cc|] eqn:ER.
+          + apply Ok_inj in EX. injection EX as <- <- <-. split; [split; [assumption|split; assumption]|].
+            apply (Ra _ _ ER).
+          + destruct nids as [|n ns]; [discriminate|]. set (nids := n :: ns) in *.
+            destruct (J_write_commit a (fresh_commit (s_g a) nids 0 true) None Ja) as [Jw [Ew [Lw _]]];
+              [discriminate|intros p Hp; specialize (Rn p Hp); lia|discriminate|].
+            destruct (write_commit a (fresh_commit (s_g a) nids 0 true) None) as [sw nw] eqn:EW.
+            cbn [fst snd] in *. subst nw. apply Ok_inj in EX. injection EX as <- <- <-.
+            split; [|lia]. split; [assumption|]. split; [cbn [fst]; lia|].
+            intros k c Hk. cbn [fst snd] in *. destruct (Nat.eq_dec k oldc) as [->|Nk].
+            * rewrite aget_aset_same in Hk. injection Hk as <-. pose proof (j_ne _ Ja). split; lia.
+            * rewrite aget_aset_other in Hk by assumption. destruct (Ra _ _ Hk). split; [lia|assumption]. }
+      destruct Hs2 as [[J2 [L2 R2]] Lw]. cbn [fst snd] in *.
+      destruct (edit s2 ws new_wc) as [s3|] eqn:EE; [|discriminate]. apply Ok_inj in Hf. subst a'.
+      cbn [fst snd]. pose proof (edit_graph _ _ _ _ EE) as G3. split; [|split].
+      + eapply J_edit; eassumption.
+      + cbn [fst]. rewrite G3. assumption.
+      + intros k c Hk. cbn [fst snd] in *. rewrite G3. exact (R2 k c Hk).
+    - split; [exact Js|]. split; [cbn [fst]; lia|]. intros k c Hk. discriminate. }
+  apply HQ.
+Qed.
